@@ -310,6 +310,12 @@ def run(ctx):
         nsec = 0
         viol.append({"kind": "secant correspondence could not be evaluated", "error": repr(ex)[:600], "trace": traceback.format_exc()[-800:], "no_failing_input_found": True})
     evals += nsec
+    try:
+        import synsel
+        evals += synsel.synapse_selection_section(ctx, viol)
+    except Exception as ex:
+        import traceback
+        viol.append({"kind": "synapse selection section raised", "error": repr(ex)[:300], "trace": traceback.format_exc()[-500:]})
     import regress
     evals += regress.run("C09", viol)
     for v in viol:
